@@ -2,7 +2,12 @@
 #![allow(clippy::type_complexity, clippy::too_many_arguments)]
 pub mod common;
 pub mod engine;
+pub mod fuzz_entry;
 pub mod pyref;
 pub mod suites;
 pub mod tape;
 pub mod props;
+pub mod spy_alloc;
+
+#[global_allocator]
+static GLOBAL: spy_alloc::Spy = spy_alloc::Spy;
